@@ -244,7 +244,7 @@ func (s *Search) alphaBeta(b *board.Board, alpha, beta Score, d, ply Depth, nTyp
 	staticEval := Inv
 
 	if !inCheck {
-		staticEval = eval.Eval(b, &eval.Coefficients)
+		staticEval = evaluate(b)
 
 		oldScore := Inv
 		if old, ok := s.hstack.Top(1); ok && old.Score != Inv {
@@ -543,7 +543,7 @@ func (s *Search) quiescence(b *board.Board, alpha, beta Score, ply Depth, opts *
 		}
 	}
 
-	standPat := eval.Eval(b, &eval.Coefficients)
+	standPat := evaluate(b)
 
 	if !inCheck && standPat >= beta {
 		return standPat
@@ -636,4 +636,13 @@ func getNextMove(moves []move.Weighted, ix int) (*move.Weighted, int) {
 	moves[ix], moves[best] = moves[best], moves[ix]
 
 	return &moves[ix], ix
+}
+
+// evaluate is the static evaluation of b kept strictly inside the window of
+// non-mate scores. With enough promoted material the raw evaluation leaves that
+// window (nine queens against a bare king are worth more than Inf), and a score
+// at or below -Inf can never raise alpha: the root of such a position was
+// answered with the null move although it had legal moves.
+func evaluate(b *board.Board) Score {
+	return Clamp(eval.Eval(b, &eval.Coefficients), -Inf+MaxPlies+1, Inf-MaxPlies-1)
 }
